@@ -1,12 +1,16 @@
 /-
 C13 — Dates survive a trip through text, and parsing accepts exactly the grammar.
-(partial: the shape of the formatted text and the error-not-panic structure of the parser;
-the symbolic round trip `parse (format d) = d` is being built on the digit lemmas)
+
+`fmtDate` / `fmtDateAlt` are the model of `Display for Date` (after fix F6) over the model's
+own decimal printer, `Calendar.parseDate` the model of `DateParser`; that Rust's formatter
+and `str::parse` behave like the model's is the correspondence check's job (`fmt`, `parse`
+requests).
 -/
-import JulianVerif.Model.Text
+import JulianVerif.Lemmas.TextRoundTrip
+import JulianVerif.Lemmas.ShapedInst
 set_option linter.unusedSimpArgs false
 namespace JV.C13
-open JV
+open JV Spec
 
 /-- the two display forms: year, '-', then month '-' day (two digits each) or the day of
 year (three digits) -/
@@ -20,14 +24,62 @@ theorem fmtYear_shape (y : Int) :
     fmtYear y = (if y < 0 then ['-'] else []) ++ padNat 4 y.natAbs := by
   simp only [fmtYear]; split <;> rfl
 
-/-- zero padding: at least `w` characters, and exactly the digits when they are enough -/
-theorem padNat_length (w n : Nat) : (padNat w n).length = max w (natDigits n).length := by
+/-- zero padding: at least `w` characters, all of them ASCII digits, reading back as `n` -/
+theorem padNat_shape (w n : Nat) :
+    (padNat w n).length = max w (natDigits n).length
+    ∧ (∀ c ∈ padNat w n, isAsciiDigit c = true) ∧ digitsVal (padNat w n) 0 = n := by
+  refine ⟨?_, (padNat_spec w n).2.1, (padNat_spec w n).2.2⟩
   simp only [padNat, List.length_append, List.length_replicate]; omega
 
 /-- year -1 is shown as -0001 (the documented rendering), year 5 as 0005, 12345 in full -/
 theorem fmtYear_examples :
     fmtYear (-1) = "-0001".toList ∧ fmtYear 5 = "0005".toList ∧ fmtYear 12345 = "12345".toList
     ∧ fmtYear (-2147483648) = "-2147483648".toList ∧ fmtYear 0 = "0000".toList := by decide
+
+theorem yearLength_le (c : Calendar) (hc : WF c) (y : Int) : c.yearLength y ≤ 366 := by
+  rcases hc.cases with rfl | rfl | ⟨rf, rfl, _⟩
+  · have := ruleCal_yearLength .julian y; simp only [ruleCal] at this
+    rw [this]; exact (yearLen_bounds _ _).2
+  · have := ruleCal_yearLength .gregorian y; simp only [ruleCal] at this
+    rw [this]; exact (yearLen_bounds _ _).2
+  · rw [rf.yearLength_cases]
+    have := yearLen_bounds .julian y
+    have := yearLen_bounds .gregorian y
+    have := yearLen_bounds .gregorian rf.yQ
+    have := rf.oP_bounds
+    have := yearLen_bounds .julian rf.yP
+    have := rf.oQ_ge
+    (repeat' split) <;> omega
+
+/-- **formatting any date in either form and parsing the text in the same calendar returns
+the same date** — for every date the API hands out (canonical dates, C06) -/
+theorem parse_fmt (d : Date) (hc : WF d.calendar) (hj : InI32 d.jdn)
+    (hcan : d.calendar.atJdn? d.jdn = some d) :
+    d.calendar.parseDate (fmtDate d) = .ok d ∧ d.calendar.parseDate (fmtDateAlt d) = .ok d := by
+  obtain ⟨d0, hd0, _, _, hlab⟩ := atJdn_total d.calendar hc d.jdn
+  rw [hcan] at hd0; cases hd0
+  have hy := (year_of_jdn_inI32 _ d.jdn d.year d.month d.day hj hlab).1
+  have hday := hlab.1
+  have hl := monthLen_bounds (leap (ruleAt d.calendar d.jdn) d.year) d.month
+  simp only [ValidYMD] at hday
+  obtain ⟨T⟩ := hc.tiling
+  obtain ⟨d1, hd1, _, _, _, _, ho1, ho2⟩ := T.block d.jdn
+  rw [hcan] at hd1; cases hd1
+  have hlen := yearLength_le d.calendar hc d.year
+  obtain ⟨A⟩ := hc.accepting
+  have hex : d.calendar.atYmd d.year d.month d.day = .ok d
+      ∧ d.calendar.atOrdinalDate d.year d.ordinal = .ok d := by
+    obtain ⟨hcal, hjd, hp⟩ := atJdn?_parts d.calendar d.jdn d hcan
+    obtain ⟨hdo, hyo, _, _⟩ := Calendar.ordinal2ymddo_inv d.calendar d.year d.ordinal d.month d.day d.dayOrdinal
+      (A.valid d.year) (A.lenSum d.year) hp
+    have hg := A.getJdn_atJdn d.jdn d hcan hy
+    rw [if_pos hj] at hg
+    constructor
+    · simp only [Calendar.atYmd, hdo, hyo, hg]
+    · simp only [Calendar.atOrdinalDate, hp, hg]
+  constructor
+  · rw [parseDate_fmtDate d.calendar d hy (by omega) (by omega), hex.1]
+  · rw [parseDate_fmtDateAlt d.calendar d hy (by omega) (by omega), hex.2]
 
 /-- a string that does not start with a sign or a digit is rejected with the offending
 character; the empty string is rejected as an empty integer -/
@@ -38,8 +90,9 @@ theorem parse_bad_start (c : Calendar) (ch : Char) (rest : List Char)
   · simp [Calendar.parseDate, parseInt, h1, h2, h3]
   · simp [Calendar.parseDate, parseInt]
 
-/-- a date error from the numbers is passed through unchanged (wrapped as InvalidDate) — the
-text path has no way of producing a date other than through `at_ymd` / `at_ordinal_date` -/
+/-- **parsing gives the same result or the same date error as constructing the date from
+those numbers**: a parsed date comes out of `at_ymd` / `at_ordinal_date`, and a date error
+is passed through unchanged -/
 theorem parse_result_origin (c : Calendar) (s : List Char) (d : Date) (h : c.parseDate s = .ok d) :
     (∃ y m dd, c.atYmd y m dd = .ok d) ∨ (∃ y o, c.atOrdinalDate y o = .ok d) := by
   simp only [Calendar.parseDate] at h
